@@ -6,6 +6,7 @@ import (
 	"bytes"
 	"io"
 	"math"
+	"reflect"
 
 	"github.com/lugu/qiloop/internal/zzverif/sym"
 	"github.com/lugu/qiloop/meta/signature"
@@ -34,9 +35,10 @@ func zzCat(parts ...[]byte) []byte {
 
 // zzChunkReader returns at most chunk bytes per Read.
 type zzChunkReader struct {
-	data  []byte
-	pos   int
-	chunk int
+	data        []byte
+	pos         int
+	chunk       int
+	eofWithData bool // report io.EOF together with the last bytes (legal for an io.Reader)
 }
 
 func (c *zzChunkReader) Read(p []byte) (int, error) {
@@ -52,6 +54,9 @@ func (c *zzChunkReader) Read(p []byte) (int, error) {
 	}
 	copy(p, c.data[c.pos:c.pos+n])
 	c.pos += n
+	if c.eofWithData && c.pos == len(c.data) {
+		return n, io.EOF
+	}
 	return n, nil
 }
 
@@ -246,4 +251,64 @@ func C03Dynamic() {
 		return ok && sym.And(iv.Value() == x, back.I == v.I)
 	})
 	sym.Reach("dynamic-done")
+}
+
+// C03TwoDynamic: two dynamic values of composite signatures decoded by the reflection decoder in one
+// go (a list of values, and a struct with two value fields): each keeps its own bytes.
+func C03TwoDynamic() {
+	a, b := sym.I32("a"), sym.I32("b")
+	d1 := zzCat(zzLE32(1), zzLE32(uint32(a)))
+	d2 := zzCat(zzLE32(1), zzLE32(uint32(b)))
+	v := []value.Value{value.Opaque("[i]", d1), value.Opaque("[i]", d2)}
+	spec := zzCat(zzLE32(2), zzStr("[i]"), d1, zzStr("[i]"), d2)
+	var back []value.Value
+	zzCheck("[]value{[i],[i]}", "[m]", v, spec, &back, func() bool {
+		if len(back) != 2 {
+			return false
+		}
+		var b0, b1 bytes.Buffer
+		back[0].Write(&b0)
+		back[1].Write(&b1)
+		return sym.And(sym.EqBytes(b0.Bytes(), zzCat(zzStr("[i]"), d1)), sym.EqBytes(b1.Bytes(), zzCat(zzStr("[i]"), d2)))
+	})
+	type two struct{ X, Y value.Value }
+	t := two{value.Opaque("(ii)", zzCat(zzLE32(uint32(a)), zzLE32(uint32(b)))), value.Opaque("(ii)", zzCat(zzLE32(uint32(b)), zzLE32(uint32(a))))}
+	spec2 := zzCat(zzStr("(ii)"), zzLE32(uint32(a)), zzLE32(uint32(b)), zzStr("(ii)"), zzLE32(uint32(b)), zzLE32(uint32(a)))
+	var back2 two
+	zzCheck("struct{value,value}", "(mm)", t, spec2, &back2, func() bool {
+		if back2.X == nil || back2.Y == nil {
+			return false
+		}
+		var b0, b1 bytes.Buffer
+		back2.X.Write(&b0)
+		back2.Y.Write(&b1)
+		return sym.And(sym.EqBytes(b0.Bytes(), spec2[:len(spec2)/2]), sym.EqBytes(b1.Bytes(), spec2[len(spec2)/2:]))
+	})
+	sym.Reach("two-dynamic-done")
+}
+
+// C03GoTypes: the Go type a signature maps to (Type.Type(), used by the proxies to decode a result
+// whose signature differs from the expected one) follows the signature's own members, also when two
+// struct signatures share a name, in whatever order they are asked for; decoding documented bytes
+// into a value of that type recovers the members.
+func C03GoTypes() {
+	sigs := []string{"(is)<P,a,b>", "(si)<P,a,b>", "(Wl)<P,a,b>"}
+	first := sym.Choose("first", len(sigs))
+	second := sym.Choose("second", len(sigs))
+	for _, k := range []int{first, second} {
+		sig := sigs[k]
+		typ, err := signature.Parse(sig)
+		sym.Assert(err == nil, "gotype/parse-ok")
+		if err != nil {
+			return
+		}
+		t := typ.Type()
+		sym.Assert(t.Kind() == reflect.Struct && t.NumField() == 2, "gotype/struct-of-two["+sig+"]")
+		if t.Kind() != reflect.Struct || t.NumField() != 2 {
+			return
+		}
+		want := [][2]reflect.Kind{{reflect.Int32, reflect.String}, {reflect.String, reflect.Int32}, {reflect.Uint16, reflect.Int64}}[k]
+		sym.Assert(t.Field(0).Type.Kind() == want[0] && t.Field(1).Type.Kind() == want[1], "gotype/member-kinds["+sig+"]")
+	}
+	sym.Reach("gotypes-done")
 }
